@@ -19,7 +19,8 @@ SPEC = {
             "insert/emplace/touch/change_size x 3 keys x sizes {0,1,2}, erase/touch/at/item_size x 3 keys, evict, peek, swap "
             "of two instances, clear); (2) thorough: LRUMap length-5 histories over the full alphabet in which every non-final "
             "step changes the abstract state, and every history of length 6..7 (LRUMap 5..7) over a reduced 15-op alphabet; "
-            "(3) transition closure: every full-alphabet operation from each of the 226x226 abstract state pairs of the two "
+            "(2b) every history of length 1..3 over 2 keys x every size-taking entry point x sizes {0, 1, 2^31, 2^32, 2^63-1, "
+            "2^63, 2^63+7, SIZE_MAX-1, SIZE_MAX}; (3) transition closure: every full-alphabet operation from each of the 226x226 abstract state pairs of the two "
             "instances; (4) seeded random histories of 1..400 ops over 1..8 heap-owning std::string keys (std::string and "
             "unique_ptr values). Each history starts from two fresh instances, is audited after every operation and ends in a "
             "drain by evict_object. evaluations = operations checked (+1 per drain). distinct_nontrivial = distinct "
@@ -40,6 +41,7 @@ SPEC = {
         _st("c12-exmap5", "exmap5", tiers=["thorough"]),
         _st("c12-redset", "redset", tiers=["thorough"]),
         _st("c12-redmap", "redmap", tiers=["thorough"]),
+        _st("c12-bigsz", "bigsz"),
         _st("c12-closet", "closet"),
         _st("c12-closmap", "closmap"),
         _st("c12-random", "random"),
@@ -65,6 +67,9 @@ SPEC = {
         "lrumap:item_size:absent", "lrumap:evict:empty", "lrumap:evict:one", "lrumap:evict:many",
         "lrumap:swap:empty-empty", "lrumap:swap:many-empty", "lrumap:swap:empty-many", "lrumap:swap:many-many",
         "lrumap:clear:many", "lrumap:final-drain:many",
+        "lruset:insert:size>=2^63", "lruset:emplace:size>=2^63", "lruset:change_size:size>=2^63", "lruset:touch_sz:size>=2^63",
+        "lrumap:insert:size>=2^63", "lrumap:emplace:size>=2^63", "lrumap:change_size:size>=2^63",
+        "lrumap:change_size_touch:size>=2^63", "lrumap:change_size_notouch:size>=2^63", "lrumap:touch_sz:size>=2^63",
     ],
     "exhaustive": {"quick": False, "thorough": False},
     "exhaustive_note": "enumerated completely: all histories of length <= 4 over the full 46-op (LRUSet<int>) and 60-op "
@@ -80,6 +85,10 @@ SPEC = {
         "do not refresh recency; every other successful keyed operation does",
         "exhaustive parts use int keys / int64 values (stale key pointers are caught by the back-pointer audit); "
         "heap-owning std::string keys and std::string / unique_ptr values are used in the random part only",
-        "entry sizes stay below 2^41 so that size arithmetic never wraps",
+        "sizes are size_t: the model's size arithmetic is modulo 2^64; boundary sizes (2^31, 2^32, 2^63-1, 2^63, 2^63+7, "
+        "SIZE_MAX-1, SIZE_MAX) go through every size-taking entry point. touch(k, ssize_t new_size) is modelled from its "
+        "header signature: a negative value (i.e. any size >= 2^63 converted to ssize_t) means 'keep the size'",
+        "LRUSet::after_emplace computes ssize_t(size) - ssize_t(old size); for sizes >= 2^63 that is a signed overflow "
+        "(recorded under ub_observations, not a verdict by the framework's UBSan policy); the stored value is still checked",
     ],
 }
